@@ -18,9 +18,10 @@ PROPS["C03"] = dict(
                "revm_interpreter::instructions::bitwise::{lt, gt, slt, sgt, eq, iszero, bitand, bitor, bitxor, not, byte, shl, shr, sar}",
                "revm_interpreter::instructions::i256::i256_cmp", "macros gas!/pop_top!/check! as expanded in those functions"],
     bounds="Group A: all 2^256 values of every operand and of the word below them, all u64 gas values; stack depth arity+1 (functional harness) "
-           "and arity-1 (underflow harness); SPEC = LatestSpec, PetersburgSpec, ByzantiumSpec for the shift gate; unwind 6",
-    outside="group B (MUL DIV SDIV MOD SMOD ADDMOD MULMOD EXP) beyond three slices: ADDMOD with operands below the modulus, zero modulus, zero divisor "
-            "(ruint's multiply/divide kernels do not unwind in CBMC); stack depths other than arity-1/arity+1; "
+           "and arity-1 (underflow harness); SPEC = LatestSpec, PetersburgSpec, ByzantiumSpec for the shift gate; unwind 6; division family: all 2^512 operand pairs, at most two "
+           "distinct kernel calls per opcode (asserted by the stand-in)",
+    outside="MUL, MULMOD, EXP, ADDMOD with operands at or above the modulus; the division kernel itself (Uint::div_rem is stood in for: DIV / MOD / SDIV / SMOD are decided "
+            "relative to it) - ruint's multiply/divide kernels do not unwind in CBMC; stack depths other than arity-1/arity+1; "
             "the Interpreter is assembled field by field with empty code and an 8-word stack buffer (these opcodes never push or read code)",
     assumptions=["reference models are limb-wise (carry chains, funnel shifts, explicit sign tests) and do not use ruint",
                  "NoHost: any host call is a failure", "Kani/CBMC/CaDiCaL trusted"],
@@ -415,9 +416,12 @@ CLAIMS = {
     "C03": dict(
         text="Each of ADD SUB LT GT SLT SGT EQ ISZERO AND OR XOR NOT BYTE SHL SHR SAR SIGNEXTEND is run as the real instruction function on a real Interpreter "
              "with fully symbolic 256-bit operands and gas, and CBMC compares result, stack effect, gas charge and failure behaviour with limb-wise reference models "
-             "that do not use ruint - the full 2^512 operand space per opcode, which no test vector set can enumerate (sign boundaries, shift 255/256, index 30/31).",
-        note="Group B (MUL DIV SDIV MOD SMOD ADDMOD MULMOD EXP) is decided only on three slices (ADDMOD with reduced operands incl. the 2^256 carry region, zero modulus, "
-             "zero divisor): ruint's 256-bit multiply/divide kernels do not unwind in CBMC. "
+             "that do not use ruint - the full 2^512 operand space per opcode, which no test vector set can enumerate (sign boundaries, shift 255/256, index 30/31). "
+             "DIV, MOD, SDIV and SMOD are decided the same way around a stood-in division kernel.",
+        note="Group B: DIV, MOD, SDIV, SMOD are decided for all 2^512 operand pairs RELATIVE to ruint's division kernel (operand order, zero-divisor rule, absolute values, MIN / -1, "
+             "sign fix-up, SMOD takes the dividend's sign; the kernel div_rem is replaced by a memoising stand-in constrained by facts of true division); ADDMOD on three slices "
+             "(operands below the modulus incl. the 2^256 carry region, zero modulus) and the zero divisor of all four; MUL, MULMOD, EXP and ADDMOD with unreduced operands are outside: "
+             "ruint's 256-bit multiply/divide kernels do not unwind in CBMC. "
              "Stack depth is arity+1 / arity-1 per harness; the interpreter is assembled field by field with an 8-word stack buffer.",
         technique="Kani/CBMC bounded model checking of the real opcode functions against limb-wise 256-bit reference models (full operand space)",
         design_ref="DESIGN.md §5 C03"),
